@@ -27,7 +27,7 @@ B = 'circus.stream.file_stream:_FileStreamBase.'
 
 
 def check(run, ctx):
-    run.each(ctx, [r1, r2, r3, r4, r5])
+    run.each(ctx, [r1, r2, r3, r4, r5, r6])
 
 
 def r1(run, ctx):
@@ -358,3 +358,99 @@ def r5(run, ctx):
                   'final newline: prefix + line for every line; the bare payload otherwise', wf,
                   wf.node, 'forms of the written text found: %s' % sorted(seen),
                   construct='written text forms')
+
+
+DELETERS = ('os.remove', 'os.unlink', 'os.rmdir', 'os.removedirs', 'shutil.rmtree',
+            'os.truncate', 'shutil.move')
+
+
+def r6(run, ctx):
+    run.rule('R6', 'a rollover deletes nothing but the destination of the rename that follows')
+    from sa.dataflow import reaching_defs
+    f = ctx.fn(F + '_do_rollover')
+    cfg = ctx.cfg(f)
+    rd = reaching_defs(ctx, f)
+    dels = ctx.nodes(f, astq.ev_calltext(*DELETERS))
+    dels += [n for n in ctx.live_nodes(f) if n not in dels and
+             any(astq.call_last(c) in ('unlink', 'rmtree') for c in n.calls())]
+    renames = []
+    for n in ctx.live_nodes(f):
+        for c in n.calls():
+            if dotted(c.func) in ('os.rename', 'os.replace') and len(c.args) == 2:
+                renames.append((n, c))
+    run.count('R6', len(dels), 2, 'deletions in FileStream._do_rollover')
+
+    def texts(node, e):
+        return {a.text() for a in rd.expand(node, e)} | {norm_text(e)}
+    def beyond_count(e):
+        # int(<suffix>) > self._backup_count (numbers compared as numbers): a file that is no
+        # backup of this configuration any more
+        if isinstance(e, ast.Compare) and len(e.ops) == 1:
+            a, b, op = e.left, e.comparators[0], type(e.ops[0])
+            if norm_text(a) == 'self._backup_count':
+                a, b = b, a
+                op = {ast.Lt: ast.Gt, ast.LtE: ast.GtE}.get(op)
+            if norm_text(b) == 'self._backup_count' and op is ast.Gt:
+                num = a
+                if isinstance(a, ast.Name):
+                    alts = rd.expand(stmt_of[id(e)], a) if id(e) in stmt_of else []
+                    num = alts[0].expr if len(alts) == 1 else a
+                if isinstance(num, ast.Call) and dotted(num.func) == 'int':
+                    return True
+        return None
+    stmt_of = {}
+    for n in cfg.nodes:
+        if n.kind == 'test':
+            for e in ast.walk(n.ast):
+                stmt_of[id(e)] = n
+    def oldest(node, e):
+        # <filename>.<backup_count>: the oldest backup - dropping it early shortens the tail
+        # but keeps it contiguous
+        for a in rd.expand(node, e):
+            v = a.expr
+            num = None
+            if isinstance(v, ast.JoinedStr) and len(v.values) == 3 and \
+                    isinstance(v.values[0], ast.FormattedValue) and \
+                    norm_text(v.values[0].value) == 'self._filename' and \
+                    isinstance(v.values[1], ast.Constant) and v.values[1].value == '.' and \
+                    isinstance(v.values[2], ast.FormattedValue):
+                num = v.values[2].value
+            elif isinstance(v, ast.BinOp) and isinstance(v.op, ast.Add) and \
+                    norm_text(v.left) == "self._filename + '.'" and \
+                    isinstance(v.right, ast.Call) and dotted(v.right.func) == 'str' and \
+                    len(v.right.args) == 1:
+                num = v.right.args[0]
+            elif isinstance(v, ast.BinOp) and isinstance(v.op, ast.Mod) and \
+                    astq.const_value(v.left, None) in ('%s.%d', '%s.%s') and \
+                    isinstance(v.right, ast.Tuple) and len(v.right.elts) == 2 and \
+                    norm_text(v.right.elts[0]) == 'self._filename':
+                num = v.right.elts[1]
+            if num is None or affine(num, {'self._backup_count': 'BC'}) != {'BC': 1}:
+                return False
+        return True
+    for x in dels:
+        direct = [c for c in x.calls() if dotted(c.func) in DELETERS or
+                  astq.call_last(c) in ('unlink', 'rmtree')]
+        ok = bool(direct)
+        if ok and all(dotted(c.func) in ('os.remove', 'os.unlink') and len(c.args) == 1 and
+                      oldest(x, c.args[0]) for c in direct):
+            run.check('R6', True, 'the oldest backup may be dropped', f, x.ast)
+            continue
+        if ok and all(dotted(c.func) in ('os.remove', 'os.unlink') for c in direct) and \
+                guarded(cfg, x, beyond_count, True):
+            run.check('R6', True, 'a file numbered beyond backup_count may be swept', f, x.ast)
+            continue
+        for c in direct:
+            if dotted(c.func) not in ('os.remove', 'os.unlink') or len(c.args) != 1:
+                ok = False
+                continue
+            t = texts(x, c.args[0])
+            pair = [n for n, rc in renames if n is not x and cfg.reachable(x, n) and
+                    texts(n, rc.args[1]) & t]
+            ok = ok and bool(pair) and cfg.exit.id not in cfg.reach(
+                x, avoid=pair, labels_excluded=('exc', 'raise', 'reraise'))
+        run.check('R6', ok, 'the file removed is the destination of the rename that follows', f,
+                  x.ast, 'a rollover removes a file that no following rename replaces: a numbered '
+                  'backup disappears without its successor taking the number, so oldest-to-newest '
+                  'is no longer a contiguous tail (string comparison of suffixes, a stale-file '
+                  'sweep, a wrong name)', construct='UNPAIRED-REMOVAL')
